@@ -39,6 +39,26 @@ func rootsFor(prop, tier string) []Root {
 				add("VH_C10_Set", via, sz)
 			}
 		}
+	case "C11":
+		for p := 1; p <= 65; p++ {
+			maxs := p
+			if maxs > 30 {
+				maxs = 30
+			}
+			for sc := 0; sc <= maxs; sc++ {
+				if !thorough {
+					// quick: p <= 20 and the group-boundary precisions
+					edge := p == 27 || p == 28 || p == 36 || p == 37 || p == 45 || p == 46 || p == 64 || p == 65
+					if p > 20 && !edge {
+						continue
+					}
+					if p > 20 && sc != 0 && sc != 1 && sc != 9 && sc != 10 && sc != 18 && sc != maxs {
+						continue
+					}
+				}
+				add("VH_C11_Decimal", p, sc)
+			}
+		}
 	case "C12":
 		add("VH_C12_Date", 10)
 		add("VH_C12_Date", 14)
